@@ -400,6 +400,29 @@ pub fn check(tier: &str) -> i32 {
     };
     rep.run_part(&one, Duration::from_secs(if thorough { 3000 } else { 120 }));
     rep.require("one-type-browsed-again-and-again", "queries_of_a_search_whose_listener_a_cache_only_browse_took_over");
+    // searches of different kinds started and stopped next to each other
+    const MOPS: [Op; 8] = [Op::BrowseT1, Op::StopT1, Op::ResolveH1, Op::StopH1, Op::BrowseT2, Op::BrowseCacheT1, Op::ResolveH1Timeout5s, Op::DeliverH1Addr];
+    const MOFFS: [u64; 2] = [300, 1500];
+    let mdepth = if thorough { 5 } else { 3 };
+    let mm = (MOPS.len() * MOFFS.len()) as u64;
+    let mn = mm.pow(mdepth);
+    let mseq = move |mut idx: u64| -> Vec<(Op, u64)> {
+        (0..mdepth)
+            .map(|_| {
+                let x = idx % mm;
+                idx /= mm;
+                (MOPS[(x / MOFFS.len() as u64) as usize], MOFFS[(x % MOFFS.len() as u64) as usize])
+            })
+            .collect()
+    };
+    let mixed = FnPart {
+        name: "searches-of-different-kinds-side-by-side".into(),
+        rule: format!("every sequence of exactly {mdepth} (operation, offset) pairs over browse T1 / stop T1 / resolve H1 / stop H1 / browse T2 / cache-only browse T1 / resolve H1 with a 5 s timeout / an address answer x offsets {{0.3, 1.5 s}}, then 1 virtual day; same oracle (stopping one search must leave the schedules of the others alone)"),
+        n: mn,
+        describe: Box::new(move |i| format!("{:?}", mseq(i))),
+        run: Box::new(move |i, tr| run_case(&mseq(i), 24 * 3600 * 1000, tr)),
+    };
+    rep.run_part(&mixed, Duration::from_secs(if thorough { 3000 } else { 60 }));
     let fdims = [3u64, 2, 2];
     let fu = FnPart {
         name: "follow-ups-for-an-unresolved-instance".into(),
